@@ -161,7 +161,7 @@ def letter_name(lt):
 
 REGIMES = {"disl": 4, "yield": 6, "minvisc": 0, "diff": 1, "maxvisc": 7}
 TEXTURES = ["random", "cluster", "girdle", "single", "aligned", "aligned_i64"]
-VOLS = ["uniform", "geometric"]
+VOLS = ["uniform", "geometric", "onehot_i64"]
 NGRAINS = [5, 2, 3, 8, 1]
 PRM = {  # name -> overrides (default first)
     "default": {},
@@ -247,7 +247,7 @@ def build_mineral(key, A=None, f=None, regime=None):
         fabric=fb,
         regime=REGIMES[key["reg"]] if regime is None else regime,
         n_grains=n,
-        fractions_init=np.array(f, float).copy(),
+        fractions_init=np.array(f).copy() if np.asarray(f).dtype.kind == "i" else np.array(f, float).copy(),
         # integer-typed textures are handed over as they are (legal ndarrays)
         orientations_init=np.array(A).copy() if np.asarray(A).dtype.kind == "i" else np.array(A, float).copy(),
     )
